@@ -51,22 +51,38 @@ def ofNames (l : List String) : Val := ofStrs (l.map (fun s => s.replace " " "%2
 def opOf : Val → Option CovOp
   | .list [.str "P", pv] => do some (.setPop (← pairs? pv))
   | .list [.str "D", nv] => do some (.setDimNames (← nv.strs?))
+  | .list [.str "N", .int n] => some (.setNIds n.toNat)
+  | .list [.str "M", pv, bv] => do some (.setNames (← pv.strs?) (← bv.strs?))
+  | .list [.str "R", dv] => do some (.resetNames (← dv.strs?))
   | _ => none
 
-/-- `C07.names perDim nDim nCov baseNames dimNames covNames ops legacyNames`
-    → names (with dims), names (exclude_dim_names), n_parameters, stored selection -/
+/-- `C07.names perDim nDim nCov baseNames dimNames covNames ops legacyNames hetero`
+    → names (with dims), names (exclude_dim_names), n_parameters, stored selection,
+      outcome of every op ("ok" | err), evaluable?
+    `hetero = true`: the wrapped model is a `HeterogeneousModel` with `perDim` individuals at
+    construction (`baseNames` is ignored: its default names are used); `set_n_ids` ops then act -/
 def names : Op
-  | [.int perDim, .int nDim, .int nCov, bv, dv, cv, opsv, .bool legacyNames] => do
+  | [.int perDim, .int nDim, .int nCov, bv, dv, cv, opsv, .bool legacyNames, .bool hetero] => do
     let base ← bv.strs?
     let dims ← dv.strs?
     let covs ← cv.strs?
     let ops ← (← opsv.list?).mapM opOf
-    let m0 := CovModel.construct perDim.toNat nDim.toNat nCov.toNat base dims covs
-    let m := ops.foldl (fun m o => match o with
-      | .setPop ix => m.setPop legacyNames ix
-      | o => m.step o) m0
-    some [ofNames (m.parameterNames false), ofNames (m.parameterNames true),
-      .int (Int.ofNat m.nParameters), ofPairs m.sel]
+    if hetero then
+      let h0 := CovHet.construct perDim.toNat nDim.toNat nCov.toNat dims covs
+      let (h, outs) := ops.foldl (fun (acc : CovHet × List Val) o =>
+        match acc.1.step o with
+        | .ok h' => (h', acc.2 ++ [.str "ok"])
+        | .error _ => (acc.1.afterRaise, acc.2 ++ [errVal "valueError"])) (h0, [])
+      some [ofNames (h.m.parameterNames false), ofNames (h.m.parameterNames true),
+        .int (Int.ofNat h.nParameters), ofPairs h.m.sel, .list outs, .bool h.evaluable]
+    else
+      let m0 := CovModel.construct perDim.toNat nDim.toNat nCov.toNat base dims covs
+      let m := ops.foldl (fun m o => match o with
+        | .setPop ix => m.setPop legacyNames ix
+        | o => m.step o) m0
+      some [ofNames (m.parameterNames false), ofNames (m.parameterNames true),
+        .int (Int.ofNat m.nParameters), ofPairs m.sel, .list (ops.map (fun _ => .str "ok")),
+        .bool true]
   | _ => none
 
 def psiVal : PsiVal Float → Val
@@ -101,7 +117,10 @@ def eval : Op
     let ind := match covIndiv k c n params cov eta with
       | .ok rows => Val.list (rows.map (fun r => .list (r.map psiVal)))
       | .error _ => errVal "valueError"
-    some [ofFlts thFlat, ll, ll2, ind]
+    let indEta := match covIndivEta k c n params cov eta with
+      | .ok rows => Val.list (rows.map (fun r => .list (r.map psiVal)))
+      | .error _ => errVal "valueError"
+    some [ofFlts thFlat, ll, ll2, ind, indEta]
   | _ => none
 
 /-- `C07.sens kind nIds nDim perDim nCov sel cov g dpsi`
@@ -161,17 +180,17 @@ def legacy : Op
 
 /-- `C07.setnids n0 nDim nCov n` — wrap a heterogeneous model with `n0` individuals, then
     `set_n_ids(n)`: n_parameters, number of names, evaluable? (code as it is), and the same for the
-    proposed repair -/
+    pre-`ec83423` variant (informational) -/
 def setnids : Op
   | [.int n0, .int nDim, .int nCov, .int n] =>
     let h0 := CovHet.construct n0.toNat nDim.toNat nCov.toNat
       ((List.range nDim.toNat).map (fun j => "Dim. " ++ toString (j + 1)))
       ((List.range nCov.toNat).map (fun j => "Cov. " ++ toString (j + 1)))
-    let h := h0.setNIds n.toNat
-    let hi := h0.setNIdsIntended n.toNat
+    let h := h0.stepKeep (.setNIds n.toNat)
+    let hl := h0.setNIdsLegacy n.toNat
     some [.int (Int.ofNat h.nParameters), .int (Int.ofNat (h.m.parameterNames false).length),
-      .bool h.evaluable, .int (Int.ofNat hi.nParameters),
-      .int (Int.ofNat (hi.m.parameterNames false).length), .bool hi.evaluable]
+      .bool h.evaluable, .int (Int.ofNat hl.nParameters),
+      .int (Int.ofNat (hl.m.parameterNames false).length), .bool hl.evaluable]
   | _ => none
 
 def ops : List (String × Op) :=
